@@ -336,6 +336,19 @@ def case_nan_mask(name):
             n['nan' if isnan else 'num'] += 1
             v, m = c.valid(z3.Not(inside) if isnan else inside, label='mask')
             if v != 'held':
+                if v == 'cex':
+                    # prefer a witness well inside the grid hull (0.6 of the
+                    # outermost cells away from the boundary), where the
+                    # interpolation itself cannot return NaN
+                    pref = z3.And(*[z3.And(
+                        p.t >= Fraction(float(nn[0]+0.6*(nn[1]-nn[0]))),
+                        p.t <= Fraction(float(nn[-1]-0.6*(nn[-1]-nn[-2]))))
+                        for p, nn in zip(pos, nodes)])
+                    r2, m2 = c.check(z3.Not(z3.Not(inside) if isnan
+                                            else inside), pref,
+                                     label='mask witness')
+                    if r2 == 'sat':
+                        m = m2
                 bad = (isnan, v, [float(symx.model_value(m, p))
                                   for p in pos] if m is not None else None)
                 break
